@@ -54,3 +54,14 @@ Theorem C02_ema_closed_form : forall (k x1 : R) (xs : list R), xs <> [] ->
 Proof. exact ema_real_last. Qed.
 Theorem C02_ema_closed_sum_def : forall k x r, ema_closed_sum k [] = 0%R /\ ema_closed_sum k (x :: r) = (k * x + (1 - k) * ema_closed_sum k r)%R.
 Proof. intros. split; reflexivity. Qed.
+
+From Coq Require Import List Floats.
+From TA Require Import Generic FloatInst XQ Run2 Par.Hom Par.Var Par.Oracle.
+(* the T2 oracle (exact rational run, evaluated by the checks) is the image of the exact real run these
+   theorems are about; SD/BB through the variance model (sqrt := identity, Par/Var.v) *)
+Theorem C02_t2_oracle_variance : forall fops : list (@op float),
+  snd (run XRvOps [] (map (map_op f2xr) fops)) = map (map_obs q2x) (snd (run XQOps [] (map qop fops))).
+Proof. exact t2_oracle_variance. Qed.
+Theorem C02_t2_oracle : forall fops : list (@op float), forallb no_sqrt_kind fops = true ->
+  snd (run XROps [] (map (map_op f2xr) fops)) = map (map_obs q2x) (snd (run XQOps [] (map qop fops))).
+Proof. exact t2_oracle. Qed.
